@@ -252,6 +252,18 @@ fn main() {
             }
         }
     }
+    // Batch-only histories first: next_frames() always returns (possibly an empty batch), whereas
+    // next() on a buffer that never refills would spin for ever. Whatever these observe is on
+    // record (violation side-car) before any history that could hang is started.
+    if cli.shard == 0 {
+        for &(cap, start, pre) in &states {
+            for len in [0u64, 1, cap as u64, 2 * cap as u64 + 1] {
+                let ops = [Op::Batch(cap + 1), Op::Batch(1), Op::Batch(cap + 1), Op::Batch(0), Op::Batch(cap)];
+                run_case(&mut rep, cap, start, pre, len, &ops, 0, lean);
+            }
+        }
+        flush(&mut rep);
+    }
     let (shard, nshards) = (cli.shard, cli.nshards);
     let reps = vmon::par_for(if lean { 1 } else { cli.threads }, states.len() as u64, 1, |_| Report::new("C14", "w"), |rep, si| {
         let (cap, start, pre) = states[si as usize];
@@ -274,7 +286,7 @@ fn main() {
     for r in reps {
         rep.merge(r);
     }
-    if cli.stage == "main" {
+    if cli.stage == "main" || cli.stage == "release" {
         rep.exhaustive(format!("capacities 1..={} x every (start, prefill length) x source lengths 0..={} x every sequence of {} operations from {{next, next_frames().take(j) for j in 0..=cap+1}}, finishing alternately with into_parts and until_exhausted", max_cap, max_src, seq_len));
         // random longer histories, larger capacities
         let n_rand = cli.t(3_000u64, 3_000_000u64);
